@@ -174,7 +174,7 @@ def gen(rng, tier, i):
     if oc == "http-unsupported":
         # a request the HTTP-style listeners do not support: another method, or CONNECT for an unknown Proxy-Protocol
         tgt = "%s:%d" % (oip, oport)
-        bad = rng.choice([b"GET http://%s/ HTTP/1.1\r\nHost: %s\r\n\r\n" % (tgt.encode(), tgt.encode()),
+        bad_pool = [b"GET http://%s/ HTTP/1.1\r\nHost: %s\r\n\r\n" % (tgt.encode(), tgt.encode()),
                           b"POST / HTTP/1.1\r\nHost: x\r\nContent-Length: 0\r\n\r\n",
                           rc.http_connect(tgt, [("Host", tgt), ("Proxy-Protocol", rng.choice(["sctp", "icmp", "tcp6"]))]),
                           b"OPTIONS * HTTP/1.1\r\nHost: x\r\n\r\n",
@@ -182,7 +182,11 @@ def gen(rng, tier, i):
                           b"CONNECT origin.sim HTTP/1.1\r\nHost: origin.sim\r\n\r\n",
                           b"CONNECT %s:notaport HTTP/1.1\r\nHost: x\r\n\r\n" % oip.encode(),
                           b"CONNECT %s:99999 HTTP/1.1\r\nHost: x\r\n\r\n" % oip.encode(),
-                          rc.http_connect(tgt, [("Host", tgt), ("Proxy-Protocol", "udp"), ("Proxy-Channel", rng.choice(["datagram", "quic-datagrams", "x"]))])])
+                          ]
+        if lk != "quic":
+            # (a QUIC listener provides a datagram channel whatever it is called; TCP listeners only the inline one)
+            bad_pool.append(rc.http_connect(tgt, [("Host", tgt), ("Proxy-Protocol", "udp"), ("Proxy-Channel", rng.choice(["datagram", "quic-datagrams", "x"]))]))
+        bad = rng.choice(bad_pool)
         for o in hs:
             if o["op"] == "send":
                 o["hex"] = bad.hex()
